@@ -131,6 +131,7 @@ class AbsIndex(AbsValue):
     def __init__(self, lst, key):
         self.lst = lst
         self.key = key
+        self.version = getattr(lst, "version", 0)  # positions are not tracked: the index is only good until the list changes
 
 
 class BoolFamily(AbsValue):
@@ -260,6 +261,7 @@ class AList(AbsValue, HeapObj):
         if k is None:
             raise Unsupported("append of foreign value to abstract list")
         I.note_write(self, "alist.append")
+        self.version = getattr(self, "version", 0) + 1
         m, d = self.mem, self.dup
         self.mem = lambda e: z3.Or(_b(m(e)), e == k)
         self.dup = lambda e: z3.Or(_b(d(e)), z3.And(_b(m(e)), e == k))
@@ -275,6 +277,7 @@ class AList(AbsValue, HeapObj):
             raise PyRaise(ExcObj(ValueError, ("list.remove(x): x not in list",)))
         self._require_nodup_at(I, k, "remove")
         I.note_write(self, "alist.remove")
+        self.version = getattr(self, "version", 0) + 1
         m, d = self.mem, self.dup
         self.mem = lambda e: z3.And(_b(m(e)), e != k)
         self.dup = lambda e: z3.And(_b(d(e)), e != k)
@@ -289,12 +292,16 @@ class AList(AbsValue, HeapObj):
     def abs_setitem(self, I, idx, val):
         if not isinstance(idx, AbsIndex) or idx.lst is not self:
             raise Unsupported("store into abstract list at unknown position")
+        if idx.version != getattr(self, "version", 0):
+            # the list was changed after .index(): the position may have shifted (the abstraction keeps no order)
+            raise Unsupported("store into abstract list at a position computed before the list was changed")
         s = idx.key
         t = self.key_of(I, val)
         if t is None:
             raise Unsupported("store of foreign value into abstract list")
         self._require_nodup_at(I, s, "item assignment")
         I.note_write(self, "alist[index] =")
+        self.version = getattr(self, "version", 0) + 1
         m, d = self.mem, self.dup
         self.mem = lambda e: z3.Or(z3.And(_b(m(e)), e != s), e == t)
         self.dup = lambda e: z3.Or(z3.And(_b(d(e)), e != s), z3.And(e == t, t != s, _b(m(e))))
